@@ -4,6 +4,8 @@
    cfg_orig = the code as found; cfg_fixed = all 8 defects repaired (io.py fixes C16-1..5 and the ir.py
    replace_use fixes 2d6a9c1, e4350a7, 283ca09 = /repo now); cfg_no_X = everything repaired but X. *)
 From PV Require Import Lib.Py Lib.Json Spec.IRSyntax Model.IrJson Proofs.C16_irjson Gen.c16_corpus.
+From PV Require Import Proofs.C16_rd_scope Proofs.C16_rd_patch Proofs.C16_rd_func.
+From Coq Require Import String.
 
 (* ---- the code as it is violates the property: one well-formed witness per defect *)
 Theorem c16_value_refuted : exists m, wf_modul m = true /\ roundtrip cfg_no_value m <> Ok m.
@@ -81,6 +83,81 @@ Theorem c16_leaf_instr_roundtrip_partial : forall f vt i v n t st,
             construct_instruction cfg_fixed vt j st = Ok (after_value i n t st).
 Proof. exact leaf_instr_roundtrip. Qed.
 Print Assumptions c16_leaf_instr_roundtrip_partial.
+
+(* ---- the repaired reader, unbounded, up to whole blocks (Proofs/C16_rd_*.v).
+   fun_ctx gn f vt fs : names identify values inside f, vt is the type pre-scan of f, earlier subroutines fs only
+                        contain placeholders for module-level names (consequences of wf_modul).
+   SInv / FInv        : reader-state invariants.  FInv next gk bs is st says: the blocks bs and the instructions is
+                        read so far equal the ORIGINAL ones with every operand that is not yet registered
+                        (value id >= next, module-level name not in gk) replaced by its placeholder [Unres name];
+                        undefined_values has an entry (of the right type) for each placeholder that occurs.
+   hide / addps / fin : the operand as the reader sees it, the names added to undefined_values, registration. *)
+(* every instruction kind, in ANY reader state with correct scopes: operands registered, pending or never seen *)
+Theorem c16_instr_roundtrip : forall gn f vt fs next gk st i j,
+  fun_ctx gn f vt fs -> SInv gn f next gk st ->
+  Forall (wfr gn f) (instr_uses i) -> ctor_ok_instr f i = true ->
+  (forall b, In b (instr_targets i ++ phi_blocks i) -> blookup (block_name f b) (rs_bmap st) = Some b) ->
+  nodup_pos (phi_blocks i) = true ->
+  (forall v n t, instr_def i = Some (v, n, t) -> v = rs_next st) ->
+  write_instruction cfg_fixed f i = Ok j ->
+  construct_instruction cfg_fixed vt j st = fin (map_refs (hide f next gk) i) (addps f next gk (instr_uses i) st).
+Proof. exact instr_roundtrip. Qed.
+Print Assumptions c16_instr_roundtrip.
+(* DictReader.register_value with the fixed replace_use = substitution of the placeholder everywhere *)
+Theorem c16_register_spec : forall name r t (self : option instr) st,
+  cov (rs_pend st) (all_built st ++ match self with Some i => [i] | None => [] end) ->
+  vlookup name (if rs_infun st then rs_loc st else rs_glob st) = None ->
+  register cfg_fixed name r t self st = Ok (option_map (map_refs (sub1 name r)) self, reg_state name r t st).
+Proof. exact register_spec. Qed.
+Print Assumptions c16_register_spec.
+(* one instruction keeps the function invariant (forward-reference patching included) *)
+Theorem c16_instr_step_nodef : forall gn f vt fs next gk bs is st i j,
+  fun_ctx gn f vt fs -> FInv gn f fs next gk bs is st -> instr_def i = None ->
+  Forall (wfr gn f) (instr_uses i) -> ctor_ok_instr f i = true ->
+  (forall b, In b (instr_targets i) -> blookup (block_name f b) (rs_bmap st) = Some b) ->
+  forallb (fun x => negb (is_terminator x)) is = true ->
+  write_instruction cfg_fixed f i = Ok j ->
+  exists st', construct_instruction cfg_fixed vt j st = Ok st' /\ FInv gn f fs next gk bs (is ++ [i]) st' /\
+              rs_bmap st' = rs_bmap st.
+Proof. exact instr_step_nodef. Qed.
+Print Assumptions c16_instr_step_nodef.
+Theorem c16_instr_step_def : forall gn f vt fs next gk bs is st i j n t,
+  fun_ctx gn f vt fs -> FInv gn f fs next gk bs is st -> instr_def i = Some (next, n, t) ->
+  wfr gn f (Loc next) -> ref_name f (Loc next) = n -> vref_ty f (Loc next) = t ->
+  mem_str n (map b_name bs) = false ->
+  Forall (wfr gn f) (instr_uses i) -> ctor_ok_instr f i = true ->
+  (forall b, In b (phi_blocks i) -> blookup (block_name f b) (rs_bmap st) = Some b) ->
+  nodup_pos (phi_blocks i) = true ->
+  forallb (fun x => negb (is_terminator x)) is = true ->
+  write_instruction cfg_fixed f i = Ok j ->
+  exists st', construct_instruction cfg_fixed vt j st = Ok st' /\
+              FInv gn f fs (Pos.succ next) gk bs (is ++ [i]) st' /\ rs_bmap st' = rs_bmap st.
+Proof. exact instr_step_def. Qed.
+Print Assumptions c16_instr_step_def.
+(* a whole block (seq_ok = its instructions are locally well-formed, value ids run from next to next') *)
+Theorem c16_block_roundtrip : forall gn f vt fs bm gk bs k next next' st j,
+  fun_ctx gn f vt fs ->
+  seq_ok gn f bm bs [] next (b_ins k) next' ->
+  FInv gn f fs next gk bs [] st -> rs_bmap st = bm ->
+  blookup (b_name k) bm = Some (b_id k) ->
+  mem_str (b_name k) (map b_name bs ++ map def_name (instrs_defs (flat_map b_ins bs ++ b_ins k))) = false ->
+  write_block cfg_fixed f k = Ok j ->
+  exists st', construct_block cfg_fixed vt j st = Ok st' /\ FInv gn f fs next' gk (bs ++ [k]) [] st' /\
+              rs_bmap st' = bm.
+Proof. exact block_roundtrip. Qed.
+Print Assumptions c16_block_roundtrip.
+(* the hypotheses above are inhabited: first two blocks of the forward-operand witness, x stays pending *)
+Theorem c16_reader_nonvacuous :
+  fun_ctx nv_gn nv_f nv_vt [] /\ FInv nv_gn nv_f [] 1 nv_gn [] [] nv_st /\
+  exists j1 j2 st1 st2,
+    write_block cfg_fixed nv_f (mk_block 1 "entry"%string [IJump 3]) = Ok j1 /\
+    construct_block cfg_fixed nv_vt j1 nv_st = Ok st1 /\
+    write_block cfg_fixed nv_f (mk_block 2 "b1"%string [IUnop 1 "y"%string I32 Neg (Loc 2); IExit]) = Ok j2 /\
+    construct_block cfg_fixed nv_vt j2 st1 = Ok st2 /\
+    FInv nv_gn nv_f [] 2 nv_gn [mk_block 1 "entry"%string [IJump 3]; mk_block 2 "b1"%string [IUnop 1 "y"%string I32 Neg (Loc 2); IExit]] [] st2 /\
+    rs_pend st2 = [("x"%string, I32)].
+Proof. split; [exact nv_ctx|]. split; [exact nv_finv | exact nv_blocks]. Qed.
+Print Assumptions c16_reader_nonvacuous.
 
 Example c16_nonvacuous :
   (10 <= List.length corpus)%nat /\ forallb (rt_ok cfg_fixed) all_witnesses = true.
